@@ -10,7 +10,7 @@
    cached offset is outside it (boundary, see DESIGN.md). *)
 From Coq Require Import String ZArith List Bool.
 From SK Require Import Model.Skel Model.SkelQ Model.Exn Model.History
-     Proofs.History Gen.Skeleton Gen.XSeek.
+     Proofs.History Gen.Skeleton Gen.XCachehit.
 Import ListNotations.
 Open Scope Z_scope.
 
@@ -126,16 +126,18 @@ Theorem C08_cache_discipline :
   hit_branch_seeks sk_apply_to_file = true.
 Proof. vm_compute. split; reflexivity. Qed.
 
-(* ... and the offset the hit branch seeks to IS the cached one: the first
-   fd.seek of apply_to_file (source order), as translated from the source
-   (Gen/XSeek.v), targets the cached offset and nothing else *)
+(* ... and the offset the hit branch seeks to IS the cached one, it is also
+   what the branch returns, and the seek happens exactly when the call is
+   destructive and an offset was cached: the branch as translated from the
+   source (Gen/XCachehit.v; it may live in apply_to_file or in a private
+   helper the branch delegates to) *)
 Theorem C08_cache_hit_seeks_to_cached_offset :
   forall cached orig newoff len,
-  match apply_seek_sites with
-  | site :: _ => site cached orig newoff len = cached
-  | [] => False
-  end.
-Proof. intros. cbn. reflexivity. Qed.
+  cache_hit_seek_target cached orig newoff len = cached /\
+  cache_hit_returns cached orig newoff len = cached /\
+  cache_hit_guard true true = true /\ cache_hit_guard false true = false /\
+  cache_hit_guard true false = false.
+Proof. intros. repeat split. Qed.
 
 (* the model's apply_to_file on a hit: position = the cached offset, cache
    unchanged (this is what the two facts above are for) *)
